@@ -183,6 +183,17 @@ def _run_impl(P, op, arg, keep):
         return ("err", err_kind(e))
 
 
+def _plain(a):
+    """JSON-friendly form of a query argument (numpy scalars -> python)"""
+    if isinstance(a, (list, tuple)):
+        return [_plain(x) for x in a]
+    if isinstance(a, (np.integer,)):
+        return int(a)
+    if isinstance(a, (np.floating,)):
+        return float(a)
+    return a
+
+
 def levels(Params, n):
     return [float(x) for x in np.linspace(Params.p_lboundary, Params.p_hboundary, n)]
 
@@ -341,11 +352,47 @@ def run(ctx: core.Check):
     replies = model_batch_par("C18", reqs)
     objs = {}
     pis = {}
+    alive = []                 # real result objects of the last queries, with the value recorded when produced
+    first_of_box = {}
+    import random as _random
+    rng_build = _random.Random(f"C18-build:{ctx.seed}")
+
+    def reverify(where):
+        for bi_, op_, arg_, obj, rec in alive:
+            now = ("ok", [float(x) for x in obj.left], [float(x) for x in obj.right]) if op_ == "cond" else ivl_out(obj)
+            if now[1] != rec[1] or now[2] != rec[2]:
+                ctx.fail(feats(op_, boxes[bi_][0], "result-changed-later"), {"box": boxes[bi_][0], "op": op_, "arg": _plain(arg_), "when": where},
+                         f"the object returned by {op_}({_plain(arg_)}) changed after later queries")
+        ctx.bump("alive-results-reverified", len(alive))
+
+    def box_unchanged(bi_):
+        P_ = objs.get(bi_)
+        if P_ is None:
+            return
+        kind_, left_, right_ = boxes[bi_]
+        if [float(x) for x in P_.left] != left_ or [float(x) for x in P_.right] != right_:
+            ctx.fail(feats("queries", kind_, "pbox-mutated"), {"box": kind_, "left": left_, "right": right_},
+                     "the p-box bounds changed as a side effect of querying it")
+        # the first query of this box once more, after everything else
+        op_, arg_, rec = first_of_box[bi_]
+        again = run_impl(P_, op_, arg_)
+        if again[:3] != rec[:3]:
+            ctx.fail(feats(op_, kind_, "second-evaluation-differs"), {"box": kind_, "op": op_, "arg": _plain(arg_), "left": left_, "right": right_},
+                     f"{op_}({_plain(arg_)}) asked a second time on the same p-box gives a different answer")
+        ctx.bump("evaluated-twice")
+
+    last_bi = None
     for (bi, op, arg), rep in zip(cases, replies):
+        if last_bi is not None and bi != last_bi:
+            box_unchanged(last_bi)
+            if last_bi % 8 == 7:
+                reverify(f"after box {last_bi}")
+        last_bi = bi
         kind, left, right = boxes[bi]
         if bi not in objs:
             try:
-                P = Staircase(left=np.array(left), right=np.array(right))
+                mode, P = build_box(Staircase, rng_build, left, right)
+                ctx.bump("built-from:" + mode)
                 if [float(x) for x in P.left] != left or [float(x) for x in P.right] != right:
                     raise ValueError("constructor changed the bounds")
                 objs[bi] = P
@@ -358,8 +405,14 @@ def run(ctx: core.Check):
             continue
         ctx.count((bi, op, repr(arg)), kind != "constant", op)
         ctx.bump("box:" + kind)
-        impl = run_impl(P, op, arg)
+        keep = []
+        impl = run_impl(P, op, arg, keep)
+        if keep and impl[0] == "ok":
+            alive.append((bi, op, arg, keep[0], impl))
+            del alive[:-120]
+        first_of_box.setdefault(bi, (op, arg, impl))
         model = parse_model(rep)
+        arg = _plain(arg)
         cj = {"box": kind, "op": op, "arg": arg, "left": left, "right": right}
         sj = {"box": kind, "op": op, "arg": arg, "left_head": left[:5], "right_head": right[:5]}
         # ---------------- tie
@@ -463,6 +516,9 @@ def run(ctx: core.Check):
                          f"get_PI({arg[0]}, {arg[1]}) = [{lo[0]},{hi[0]}], the bounds at the cut levels {lc}, {hc} give {list(cands[0])}")
         if len(ctx.samples) < 6 and op in ("cut", "cdf", "pi", "outer") and bi < 3 and len(str(arg)) < 40:
             ctx.sample({"box": kind, "op": op, "arg": arg, "impl": _short(impl), "model": rep[:70]})
+    if last_bi is not None:
+        box_unchanged(last_bi)
+    reverify("end of run")
     # ---------------- prediction intervals: relations between the answers for one box
     for bi, d in pis.items():
         kind, left, right = boxes[bi]
